@@ -80,7 +80,9 @@ def main(argv=None):
             print(f"ANALYSIS-ERROR property={prop} {selftest_problem}")
             return 2
         n = len(rep.obligations)
-        print(f"{prop} [{a.tier}] obligations={n} discharged={n - len(rep.violations)} units={rep.units} exit={code}")
+        for u in rep.undecided_list:
+            print(f"UNDECIDED property={prop} {u['rule']}: {u['why'][:160]}")
+        print(f"{prop} [{a.tier}] obligations={n} discharged={n - len(rep.violations)} undecided={len(rep.undecided_list)} units={rep.units} exit={code}")
         return code
     except AnalysisError as e:
         print(f"ANALYSIS-ERROR property={prop} {e}")
